@@ -18,6 +18,7 @@ import time
 VERIF = os.path.dirname(os.path.dirname(os.path.dirname(os.path.abspath(__file__))))
 KNOWN = os.path.join(VERIF, 'known_findings.json')
 OUT = os.environ.get('VF_OUT') or VERIF      # evidence/ and replays/ root (redirected for mutation runs)
+VIOL_CAP = int(os.environ.get('VF_VIOL_CAP', '40'))
 
 
 def digest(obj) -> str:
@@ -113,7 +114,7 @@ class Collector:
             out_lines.append(f"KNOWN-FINDING: property={self.pid} {hit['what']} [key={key} occurrences={cnt}]")
         n_viol = 0
         rdir = os.path.join(OUT, 'replays', self.pid)
-        for key, idx, payload, msg, cnt in violations[:25]:
+        for key, idx, payload, msg, cnt in violations[:VIOL_CAP]:
             if confirm and task_fn is not None:
                 again = _confirm(self.module, task_fn, payload, key)
                 if again is False:
@@ -127,8 +128,9 @@ class Collector:
             out_lines.append(f'VIOLATION property={self.pid} replay={path}')
             out_lines.append(f'  key={key} occurrences={cnt}: {msg[:600]}')
             n_viol += 1
-        if len(violations) > 25:
-            out_lines.append(f'  ... and {len(violations) - 25} further distinct violation keys')
+        if len(violations) > VIOL_CAP:
+            out_lines.append(f'  ... and {len(violations) - VIOL_CAP} further distinct violation keys')
+        self.extra['violation_keys'] = [v[0] for v in violations][:300]
         self._write_evidence(n_viol, known_seen)
         for l in out_lines:
             print(l)
